@@ -30,10 +30,15 @@ Section Term.
   Definition empty_node (p : entry) : bool :=
     match e_node p with Some (I _ [] []) => true | _ => false end.
 
+  (* the bottom (root) frame counts only once it has completed an instance before: the EDI machine
+     instantiates the root again; in the flat-file machine an open root frame has occurred = 0 *)
+  Definition countable (p : entry) (b : list entry) : bool :=
+    match b with [] => 1 <=? e_occ p | _ :: _ => true end.
+
   Fixpoint fresh (opens : list entry) : nat :=
     match opens with
-    | p :: ((_ :: _) as b) => if empty_node p then S (fresh b) else 0
-    | _ => 0
+    | [] => 0
+    | p :: b => if empty_node p && countable p b then S (fresh b) else 0
     end.
 
   Fixpoint links (above : decl) (opens : list entry) : Prop :=
@@ -52,10 +57,10 @@ Section Term.
 
   Definition fresh_ok (top : entry) (opens : list entry) (us : list unt) : Prop :=
     match opens with
-    | p :: _ :: _ =>
-        empty_node p = true ->
+    | [] => 1 <= e_occ top   (* only the root frame is left: it has completed an instance *)
+    | p :: b =>
+        empty_node p && countable p b = true ->
         e_occ top = 0 /\ e_cur p = 0 /\ starts try_leaf (e_decl top) us = true
-    | _ => True
     end.
 
   Definition TInv (N : nat) (stk : list entry) (us : list unt) : Prop :=
@@ -77,7 +82,7 @@ Section Term.
 
   Lemma fresh_le : forall l, fresh l <= length l.
   Proof.
-    induction l as [|p [|q b] IH]; simpl in *; try lia. destruct (empty_node p); lia.
+    induction l as [|p b IH]; simpl in *; try lia. destruct (empty_node p && countable p b); lia.
   Qed.
 
   Lemma kidsum_le : forall N l, schain N l -> kidsum l <= length l * N.
@@ -101,7 +106,7 @@ Section Term.
   Qed.
 
   Lemma fresh_ok_nonempty : forall top p b us, empty_node p = false -> fresh_ok top (p :: b) us.
-  Proof. intros top p [|q b] us H; simpl; auto. intros H'. congruence. Qed.
+  Proof. intros top p b us H. cbn [fresh_ok]. rewrite H. intros H'. discriminate H'. Qed.
 
   (* ---- recDone ---------------------------------------------------------------------------------- *)
   Lemma rec_done_T : forall N b p tgt us,
@@ -115,7 +120,7 @@ Section Term.
     induction b as [|q b' IH]; intros p tgt us Hn Hwf Hl Hs; cbn [rec_done].
     - destruct (if d_tgt (e_decl p) then _ else _) as [site|tgt1]; [exact Logic.I|].
       split; [|unfold nu; simpl; lia].
-      cbn [TInv e_decl e_cur]. repeat split; auto. simpl in *. lia.
+      cbn [TInv e_decl e_cur]. repeat split; auto; [simpl in *; lia|cbn; lia].
     - destruct (if d_tgt (e_decl p) then _ else _) as [site|tgt1]; [exact Logic.I|].
       destruct Hn as (i & Hi). rewrite Hi.
       destruct Hl as (Hqn & Hnth & Hwq & Hl').
@@ -172,11 +177,11 @@ Section Term.
   Proof.
     intros N top q b us (Hwf & Hcur & Hl & Hs & Hf) Hst.
     destruct Hl as (Hqn & Hnth & Hwq & Hl').
-    assert (Hq_ne : b <> [] -> empty_node q = false).
-    { intros Hb. destruct b as [|r b]; [congruence|]. cbn [fresh_ok] in Hf.
-      destruct (empty_node q); [|reflexivity]. destruct (Hf eq_refl) as (_ & _ & H). congruence. }
+    assert (Hq : empty_node q && countable q b = false).
+    { cbn [fresh_ok] in Hf. destruct (empty_node q && countable q b); [|reflexivity].
+      destruct (Hf eq_refl) as (_ & _ & H). congruence. }
     split.
-    { destruct b as [|r b]; [reflexivity|]. cbn [fresh]. rewrite Hq_ne by discriminate. reflexivity. }
+    { cbn [fresh]. rewrite Hq. reflexivity. }
     unfold rec_next.
     destruct (e_occ top <? d_min (e_decl top)); [exact Logic.I|].
     destruct Hs as (Hs1 & Hs2 & Hs3).
@@ -190,8 +195,11 @@ Section Term.
         split.
         { pose proof (decl_size_kid _ _ (nth_error_In _ _ Ek)).
           cbn [schain e_decl length] in *. split; [lia|]. split; [lia|exact Hs3]. }
-        { destruct b as [|r b]; [exact Logic.I|]. apply fresh_ok_nonempty.
-          unfold empty_node in *. cbn [e_node]. apply Hq_ne. discriminate. }
+        { cbn [fresh_ok]. intros H. exfalso.
+          assert (Hsame : empty_node (E (e_decl q) (e_node q) (S (e_cur q)) (e_occ q)) &&
+                          countable (E (e_decl q) (e_node q) (S (e_cur q)) (e_occ q)) b =
+                          empty_node q && countable q b) by reflexivity.
+          rewrite Hsame, Hq in H. discriminate H. }
       + unfold nu. cbn [tl kidsum length e_decl e_cur]. lia.
     - pose proof (rec_done_T N b q None us Hqn Hwq Hl') as H.
       assert (Hs' : schain N (q :: b)) by (cbn [schain length] in *; auto).
@@ -352,32 +360,6 @@ Section Term.
           -- eapply Hof; [exact H|]. apply Hnext.
   Qed.
 
-  Lemma run_terminates : forall N fuel st,
-    TInv N (m_stk st) (m_rest st) -> potential N st < fuel ->
-    snd (run (hstep try_leaf) fuel st) <> TOutOfFuel.
-  Proof.
-    intros N. induction fuel as [|f IH]; intros st Hinv Hpot; [lia|].
-    cbn [run]. destruct st as [stk tgt us]. cbn [m_stk m_rest] in Hinv.
-    destruct tgt as [t|].
-    - unfold hstep at 1. cbn [m_tgt].
-      specialize (IH (clear_tgt (M stk (Some t) us))).
-      destruct (run (hstep try_leaf) f (clear_tgt (M stk (Some t) us))) as [ds e] eqn:Er.
-      cbn [snd] in *. apply IH; [exact Hinv|].
-      unfold potential, clear_tgt in *. cbn [m_stk m_rest m_tgt] in *. lia.
-    - pose proof (hstep_T N stk us Hinv) as H.
-      destruct (hstep try_leaf (M stk None us)) as [st'|o st'] eqn:Es.
-      + destruct H as [H1 H2]. apply IH; [exact H1|].
-        pose proof (nu_le N _ _ H1) as Hb'. pose proof (nu_le N _ _ Hinv) as Hb.
-        unfold potential in *. cbn [m_stk m_rest m_tgt] in *.
-        unfold lexdec in H2. cbn [m_stk m_rest] in H2.
-        assert (phi1 N (m_stk st') (m_rest st') * S (nu_bound N) + nu (m_stk st') <
-                phi1 N stk us * S (nu_bound N) + nu stk).
-        { destruct H2 as [H2|[H2 H3]]; nia. }
-        destruct (m_tgt st'); lia.
-      + destruct (hstep_ret _ _ _ _ Es) as (t & -> & Ht). exact Ht.
-  Qed.
-
-  (* ---- from the initial state, within run_fuel iterations ------------------------------------------- *)
   Lemma WF_root : forall d0 r, Forall WF (d0 :: r) -> WF (root_decl (d0 :: r)).
   Proof.
     intros d0 r H. inversion H as [|? ? Hd0 Hr]; subst.
@@ -385,24 +367,199 @@ Section Term.
     split; [exact Hd0|]. clear H Hd0. induction Hr; simpl; auto.
   Qed.
 
+  Section RunT.
+    Variable step : mstate -> sres.
+    Hypothesis step_del : forall stk t us,
+      step (M stk (Some t) us) = Ret (ODeliver t) (M stk (Some t) us).
+    Hypothesis step_T : forall N stk us, TInv N stk us ->
+      match step (M stk None us) with
+      | Cont st' => TInv N (m_stk st') (m_rest st') /\ lexdec N (M stk None us) st'
+      | Ret _ _ => True
+      end.
+    Hypothesis step_ret : forall stk us o st', step (M stk None us) = Ret o st' ->
+      exists t, o = OTerm t /\ t <> TOutOfFuel.
+
+    Lemma run_terminates_gen : forall N fuel st,
+      TInv N (m_stk st) (m_rest st) -> potential N st < fuel ->
+      snd (run step fuel st) <> TOutOfFuel.
+    Proof.
+      intros N. induction fuel as [|f IH]; intros st Hinv Hpot; [lia|].
+      cbn [run]. destruct st as [stk tgt us]. cbn [m_stk m_rest] in Hinv.
+      destruct tgt as [t|].
+      - rewrite step_del.
+        specialize (IH (clear_tgt (M stk (Some t) us))).
+        destruct (run step f (clear_tgt (M stk (Some t) us))) as [ds e] eqn:Er.
+        cbn [snd] in *. apply IH; [exact Hinv|].
+        unfold potential, clear_tgt in *. cbn [m_stk m_rest m_tgt] in *. lia.
+      - pose proof (step_T N stk us Hinv) as H.
+        destruct (step (M stk None us)) as [st'|o st'] eqn:Es.
+        + destruct H as [H1 H2]. apply IH; [exact H1|].
+          pose proof (nu_le N _ _ H1) as Hb'. pose proof (nu_le N _ _ Hinv) as Hb.
+          unfold potential in *. cbn [m_stk m_rest m_tgt] in *.
+          unfold lexdec in H2. cbn [m_stk m_rest] in H2.
+          assert (phi1 N (m_stk st') (m_rest st') * S (nu_bound N) + nu (m_stk st') <
+                  phi1 N stk us * S (nu_bound N) + nu stk).
+          { destruct H2 as [H2|[H2 H3]]; nia. }
+          destruct (m_tgt st'); lia.
+        + destruct (step_ret _ _ _ _ Es) as (t & -> & Ht). exact Ht.
+    Qed.
+
+    Lemma terminates_gen : forall ds us, Forall WF ds ->
+      (forall f, snd (run step (S f) (init [] us)) <> TOutOfFuel) ->
+      snd (run step (run_fuel ds us) (init ds us)) <> TOutOfFuel.
+    Proof.
+      intros ds us Hwf Hnil. destruct ds as [|d0 r].
+      - unfold run_fuel. apply Hnil.
+      - set (N := S (decl_size (root_decl (d0 :: r)))).
+        assert (Hinv : TInv N (m_stk (init (d0 :: r) us)) (m_rest (init (d0 :: r) us))).
+        { inversion Hwf as [|? ? Hd0 Hr]; subst. unfold init. cbn [m_stk m_rest TInv e_decl e_cur].
+          split; [exact Hd0|]. split; [reflexivity|]. split.
+          - cbn [links e_node e_decl e_cur]. split; [eauto|]. split; [reflexivity|].
+            split; [apply WF_root; exact Hwf|exact Logic.I].
+          - split; [|cbn; intros H; discriminate H].
+            assert (decl_size d0 < decl_size (root_decl (d0 :: r))) by (apply decl_size_kid; left; reflexivity).
+            cbn [schain length e_decl]. unfold N. repeat split; lia. }
+        apply (run_terminates_gen N); [exact Hinv|].
+        pose proof (nu_le N _ _ Hinv) as Hnu.
+        unfold potential, run_fuel, init, phi1 in *. cbn [m_stk m_rest m_tgt tl fresh] in *.
+        fold N. unfold nu_bound in *. nia.
+    Qed.
+  End RunT.
+
+  (* ---- from the initial state, within run_fuel iterations ------------------------------------------- *)
+  Lemma hstep_del : forall stk t us,
+    hstep try_leaf (M stk (Some t) us) = Ret (ODeliver t) (M stk (Some t) us).
+  Proof. reflexivity. Qed.
+  Lemma edi_step_del : forall stk t us,
+    edi_step try_leaf (M stk (Some t) us) = Ret (ODeliver t) (M stk (Some t) us).
+  Proof. reflexivity. Qed.
+
   Theorem hier_terminates : forall ds us, Forall WF ds ->
     snd (run (hstep try_leaf) (run_fuel ds us) (init ds us)) <> TOutOfFuel.
   Proof.
-    intros ds us Hwf. destruct ds as [|d0 r].
-    - unfold run_fuel. cbn [run]. destruct us; cbn; discriminate.
-    - set (N := S (decl_size (root_decl (d0 :: r)))).
-      assert (Hinv : TInv N (m_stk (init (d0 :: r) us)) (m_rest (init (d0 :: r) us))).
-      { inversion Hwf as [|? ? Hd0 Hr]; subst. unfold init. cbn [m_stk m_rest TInv e_decl e_cur].
-        split; [exact Hd0|]. split; [reflexivity|]. split.
-        - cbn [links e_node e_decl e_cur]. split; [eauto|]. split; [reflexivity|].
-          split; [apply WF_root; exact Hwf|exact Logic.I].
-        - split; [|exact Logic.I].
-          assert (decl_size d0 < decl_size (root_decl (d0 :: r))) by (apply decl_size_kid; left; reflexivity).
-          cbn [schain length e_decl]. unfold N. repeat split; lia. }
-      apply (run_terminates N); [exact Hinv|].
-      pose proof (nu_le N _ _ Hinv) as Hnu.
-      unfold potential, run_fuel, init, phi1 in *. cbn [m_stk m_rest m_tgt tl fresh] in *.
-      fold N. unfold nu_bound in *. nia.
+    intros ds us Hwf. apply (terminates_gen (hstep try_leaf) hstep_del hstep_T hstep_ret); auto.
+    intros f. cbn [run]. destruct us; cbn; discriminate.
+  Qed.
+
+  (* ---- EDI: the root frame itself may match again -------------------------------------------------- *)
+  Lemma instantiate_root_T : forall N top us n st,
+    TInv N [top] us -> read_rec try_leaf (e_decl top) us = Some n ->
+    match instantiate top [] None n us true st with
+    | Cont st' => TInv N (m_stk st') (m_rest st') /\
+                  phi1 N (m_stk st') (m_rest st') < phi1 N [top] us
+    | Ret _ _ => True
+    end.
+  Proof.
+    intros N top us n st Hinv Hrr.
+    pose proof Hinv as (Hwf & Hcur & _ & Hs & Hocc). cbn [fresh_ok] in Hocc.
+    destruct (read_rec_some try_leaf _ _ _ Hrr) as [Hst Hm].
+    destruct (WF_parts try_leaf _ Hwf) as (Hshape & _ & _).
+    destruct Hs as (Hs1 & _). cbn [length] in Hs1.
+    unfold instantiate.
+    destruct (length us <? n) eqn:Eln; [exact Logic.I|]. apply Nat.ltb_ge in Eln.
+    destruct (d_grp (e_decl top)) eqn:Eg.
+    - subst n. destruct (d_kids (e_decl top)) as [|k r] eqn:Ek; [congruence|].
+      cbn [m_stk m_rest firstn skipn map].
+      assert (Hk : nth_error (d_kids (e_decl top)) 0 = Some k) by (rewrite Ek; reflexivity).
+      assert (Hcnt : (1 <=? e_occ top) = true) by (apply Nat.leb_le; exact Hocc).
+      split.
+      + cbn [TInv e_decl e_cur]. split; [exact (nth_WF _ _ _ Hwf Hk)|]. split; [reflexivity|]. split.
+        { cbn [links e_decl e_cur e_node]. split; [eauto|]. split; [rewrite Hcur; exact Hk|].
+          split; [exact Hwf|exact Logic.I]. }
+        split.
+        { pose proof (decl_size_kid _ _ (nth_error_In _ _ Hk)).
+          cbn [schain e_decl length] in *. repeat split; lia. }
+        { cbn [fresh_ok e_occ e_cur e_decl]. intros _. split; [reflexivity|]. split; [exact Hcur|].
+          rewrite <- (starts_kid0 try_leaf (e_decl top) k r us Eg Ek). exact Hst. }
+      + unfold phi1. cbn [tl fresh]. unfold empty_node, countable. cbn [e_node e_occ].
+        rewrite Hcnt. cbn [andb]. pose proof (kids_lt_size (e_decl top)). lia.
+    - apply Hshape in Hm. destruct Hm as [Hn1 Hn2].
+      assert (Hne : map u_id (firstn n us) <> []) by (apply map_firstn_nonempty; auto).
+      assert (Hlen : length (skipn n us) = length us - n) by apply skipn_length.
+      assert (HN : 1 <= N) by lia.
+      destruct (d_kids (e_decl top)) as [|k r] eqn:Ek.
+      + set (cur1 := E (e_decl top) (Some (I (d_name (e_decl top)) (map u_id (firstn n us)) [])) (e_cur top) (e_occ top)).
+        pose proof (rec_done_T N [] cur1 None (skipn n us)) as H.
+        assert (Hn' : exists i, e_node cur1 = Some i) by (unfold cur1; cbn; eauto).
+        assert (Hs' : schain N [cur1]) by (cbn [schain length e_decl]; split; [exact Hs1|exact Logic.I]).
+        specialize (H Hn' Hwf Logic.I Hs').
+        destruct (rec_done cur1 [] None) as [stk' tgt'|t|s]; cbn [of_rres]; auto.
+        destruct H as [H1 H2]. cbn [m_stk m_rest]. split; [exact H1|].
+        unfold phi1. rewrite Hlen. cbn [tl fresh].
+        assert (N * (length us - n) + N <= N * length us) by nia.
+        lia.
+      + cbn [m_stk m_rest].
+        assert (Hk : nth_error (d_kids (e_decl top)) 0 = Some k) by (rewrite Ek; reflexivity).
+        split.
+        * cbn [TInv e_decl e_cur]. split; [exact (nth_WF _ _ _ Hwf Hk)|]. split; [reflexivity|]. split.
+          { cbn [links e_decl e_cur e_node]. split; [eauto|]. split; [rewrite Hcur; exact Hk|].
+            split; [exact Hwf|exact Logic.I]. }
+          split.
+          { pose proof (decl_size_kid _ _ (nth_error_In _ _ Hk)).
+            cbn [schain e_decl length] in *. repeat split; lia. }
+          { apply fresh_ok_nonempty. unfold empty_node. cbn [e_node].
+            destruct (map u_id (firstn n us)); [congruence|reflexivity]. }
+        * unfold phi1. rewrite Hlen. cbn [tl fresh].
+          assert (N * (length us - n) + N <= N * length us) by nia.
+          lia.
+  Qed.
+
+  Lemma edi_eq_hstep2 : forall top q b us,
+    edi_step try_leaf (M (top :: q :: b) None us) = hstep try_leaf (M (top :: q :: b) None us).
+  Proof.
+    intros. unfold edi_step, hstep. cbn [m_tgt m_rest m_stk length].
+    replace (S (S (length b)) <=? 1) with false by (symmetry; apply Nat.leb_gt; lia).
+    destruct us as [|u r]; [reflexivity|].
+    destruct (read_rec try_leaf (e_decl top) (u :: r)); reflexivity.
+  Qed.
+
+  Lemma edi_step_T : forall N stk us, TInv N stk us ->
+    match edi_step try_leaf (M stk None us) with
+    | Cont st' => TInv N (m_stk st') (m_rest st') /\ lexdec N (M stk None us) st'
+    | Ret _ _ => True
+    end.
+  Proof.
+    intros N stk us Hinv. destruct stk as [|top [|q b]]; [destruct Hinv| |].
+    - unfold edi_step. cbn [m_tgt m_rest m_stk length].
+      destruct us as [|u r]; [exact Logic.I|].
+      destruct (read_rec try_leaf (e_decl top) (u :: r)) as [n|] eqn:Err; [|exact Logic.I].
+      pose proof (instantiate_root_T N top (u :: r) n (M [top] None (u :: r)) Hinv Err) as H.
+      destruct (instantiate top [] None n (u :: r) true _); auto.
+      destruct H as [H1 H2]. split; [exact H1|]. left. exact H2.
+    - rewrite edi_eq_hstep2. apply hstep_T. exact Hinv.
+  Qed.
+
+  Lemma edi_step_ret : forall stk us o st', edi_step try_leaf (M stk None us) = Ret o st' ->
+    exists t, o = OTerm t /\ t <> TOutOfFuel.
+  Proof.
+    intros stk us o st' H. destruct stk as [|top [|q b]].
+    - unfold edi_step in H. cbn [m_tgt m_rest m_stk length] in H.
+      destruct us; inversion H; subst; eexists; (split; [reflexivity|discriminate]).
+    - unfold edi_step in H. cbn [m_tgt m_rest m_stk length] in H.
+      destruct us as [|u r]; [inversion H; subst; eexists; split; [reflexivity|discriminate]|].
+      destruct (read_rec try_leaf (e_decl top) (u :: r)) as [n|];
+        [|inversion H; subst; eexists; split; [reflexivity|discriminate]].
+      unfold instantiate in H.
+      destruct (length (u :: r) <? n); [inversion H; subst; eexists; split; [reflexivity|discriminate]|].
+      destruct (d_kids (e_decl top)); [|discriminate].
+      destruct (rec_done _ _ _) eqn:En; simpl in H; inversion H; subst.
+      + exfalso. eapply rec_done_no_err; eauto.
+      + eexists. split; [reflexivity|discriminate].
+    - rewrite edi_eq_hstep2 in H. eapply hstep_ret; eauto.
+  Qed.
+
+  Theorem edi_terminates : forall ds us, Forall WF ds ->
+    snd (run (edi_step try_leaf) (run_fuel ds us) (init ds us)) <> TOutOfFuel.
+  Proof.
+    intros ds us Hwf. apply (terminates_gen (edi_step try_leaf) edi_step_del edi_step_T edi_step_ret); auto.
+    intros f. cbn [run]. destruct us; cbn; discriminate.
+  Qed.
+
+  Theorem edi_eq_spec_full : forall ds us, Forall WF ds -> count_tgts ds <= 1 ->
+    no_root_repeat try_leaf ds us ->
+    run (edi_step try_leaf) (run_fuel ds us) (init ds us) = spec try_leaf ds us.
+  Proof.
+    intros ds us Hwf Hc Hg. apply edi_eq_spec_run; auto. apply edi_terminates; auto.
   Qed.
 
   (* the full statement: no fuel hypothesis *)
@@ -419,4 +576,12 @@ Theorem flat_machine_eq_spec_full : forall ds us,
 Proof.
   intros ds us H Hc. unfold run_kind, spec_kind. apply machine_eq_spec_full; auto.
   apply wfb_Forall_flat. exact H.
+Qed.
+
+Theorem edi_machine_eq_spec_full : forall ds us,
+  forallb wfb ds = true -> count_tgts ds <= 1 -> no_root_repeat edi_leaf ds us ->
+  run_kind KEdi ds us = spec_kind KEdi ds us.
+Proof.
+  intros ds us H Hc Hg. unfold run_kind, spec_kind. apply edi_eq_spec_full; auto.
+  apply wfb_Forall_edi. exact H.
 Qed.
